@@ -16,6 +16,14 @@ def queries(tier):
                     flags=["--memory-leak-check"], stubs=["libc.c", "c19_unused.c"],
                     bounds="element count 2..4 symbolic; %d calls from {value, advance, reset, clone-and-switch}" % k,
                     outside="more than %d calls; symbolic bounds (floating-point formulas); other generator kinds" % k))
+    cases = [("0.0", "1.0", "1.0", 2), ("2.0", "6.0", "4.0", 2), ("0.0", "1.0", "0.5", 3), ("0.0", "1.0", "2.0", 0), ("1.0", "4.0", "1.0", 4)]
+    for ci, (a, b, st, n) in enumerate(cases if tier == "quick" else cases + [("-1.0", "1.0", "0.25", 9), ("0.0", "3.0", "3.5", 0), ("5.0", "5.5", "0.5", 2)]):
+        qs.append(Q("range_text_c%d" % ci, "C19/range.c", units=["mptplot/values/iterator_linear.c", "mptcore/misc/string_nextvis.c"],
+                    harness_defines={"RMIN": a, "RMAX": b, "RSTEP": st, "REXPECT": n, "V_NMAX": 32}, unwind_default=14,
+                    fp=FP, flags=["--memory-leak-check"], stubs=["libc.c"],
+                    bounds="range description '( A B : S )' with 0..1 blanks in every gap (symbolic), numbers %s %s step %s by the driver (case split; mpt_cdouble by contract): %s"
+                           % (a, b, st, ("%d elements in order, then the end" % n) if n else "refused"),
+                    outside="number syntax; symbolic bounds (floating-point division); the iterator-source form of the constructor"))
     heads = range(8)
     for h in heads:
         qs.append(Q("profile_text_h%d" % h, "C19/profile.c", units=["mptplot/values/iterator_profile.c", "mptcore/types/type_traits.c", "mptcore/misc/identifier.c",
